@@ -31,6 +31,9 @@ Variable e : env.
 Variable p : program.
 Hypothesis tc_nonneg : 0 <= trackcount p.
 Hypothesis Hw : cp_need (codes p) 0 <= trackcount p * G_ensure_factor.
+(* the real side runs with any negative limit ("no limit"); the padded side of [ustep] uses -1 *)
+Variable L0 : Z.
+Hypothesis HL0 : L0 < 0.
 
 Notation need := (VMUBridge.need p).
 Definition tfree (s : vm) : Z := tcap s - zlen (track s).
@@ -49,7 +52,7 @@ Definition relT (r1 r2 : res outcome) : Prop :=
 
 Lemma t_ensure s1 s2 : same s1 s2 -> roomy p 0 s2 ->
   zlen (track s1) <= tcap s1 -> need <= tcap s1 -> 0 <= scap s1 ->
-  exists a, ensure_storage p (-1) s1 = Ok a /\ ensure_storage p (-1) s2 = Ok s2 /\ same a s2 /\
+  exists a, ensure_storage p L0 s1 = Ok a /\ ensure_storage p (-1) s2 = Ok s2 /\ same a s2 /\
             need <= tfree a /\ need <= tcap a /\ scap s1 <= scap a.
 Proof.
   intros HS [HT HK] Ht Hnt Hns.
@@ -58,20 +61,20 @@ Proof.
   { unfold ensure_storage. fold need.
     replace (scap s2 - zlen (stack s2) <? need) with false by lia.
     replace (tcap s2 - zlen (track s2) <? need) with false by lia. reflexivity. }
-  unfold ensure_storage. fold need. unfold tfree, same.
+  unfold ensure_storage at 1. fold need. unfold tfree, same.
   pose proof (vml_zlen_nonneg (track s1)).
   assert (Hn0 : 0 <= need) by (unfold VMUBridge.need, G_ensure_factor; lia).
   destruct (scap s1 - zlen (stack s1) <? need) eqn:E1.
   - vm_cbn. destruct (tcap s1 - zlen (track s1) <? need) eqn:E3.
     + replace (tcap s1 * 2 =? 0) with false by lia.
-      replace ((0 <=? -1) && (-1 <? tcap s1 * 2)) with false by reflexivity.
+      replace ((0 <=? L0) && (L0 <? tcap s1 * 2)) with false by lia.
       replace (tcap s1 * 2 <=? tcap s1) with false by lia.
       replace (tcap s1 * 2 - zlen (track s1) <? need) with false by lia.
       eexists. split; [reflexivity|]. split; [exact E2|]. vm_cbn. repeat split; try assumption; lia.
     + eexists. split; [reflexivity|]. split; [exact E2|]. vm_cbn. repeat split; try assumption; lia.
   - destruct (tcap s1 - zlen (track s1) <? need) eqn:E3.
     + replace (tcap s1 * 2 =? 0) with false by lia.
-      replace ((0 <=? -1) && (-1 <? tcap s1 * 2)) with false by reflexivity.
+      replace ((0 <=? L0) && (L0 <? tcap s1 * 2)) with false by lia.
       replace (tcap s1 * 2 <=? tcap s1) with false by lia.
       replace (tcap s1 * 2 - zlen (track s1) <? need) with false by lia.
       eexists. split; [reflexivity|]. split; [exact E2|]. vm_cbn. repeat split; try assumption; lia.
@@ -83,7 +86,7 @@ Proof. unfold sinit, G_stacksize_min. lia. Qed.
 
 Lemma t_goto s1 s2 a : same s1 s2 -> roomy p 0 s2 ->
   cp_need (codes p) (pc s1 + 1) <= tfree s1 -> need <= tcap s1 -> sinit <= scap s1 ->
-  relT (cont (goto p (-1) s1 a)) (cont (goto p (-1) s2 a)).
+  relT (cont (goto p L0 s1 a)) (cont (goto p (-1) s2 a)).
 Proof.
   intros HS HR Ht Hnt Hns.
   pose proof (cp_need_nonneg (codes p) (pc s1 + 1)) as Hnn. pose proof sinit_nonneg as Hs0.
@@ -119,7 +122,7 @@ Qed.
 Lemma t_brk s1 s2 : same s1 s2 -> roomy p 0 s2 ->
   cp_need (codes p) (pc s1) <= tfree s1 + 1 ->
   zlen (track s1) <= tcap s1 -> need <= tcap s1 -> sinit <= scap s1 ->
-  relT (brk p (-1) s1) (brk p (-1) s2).
+  relT (brk p L0 s1) (brk p (-1) s2).
 Proof.
   intros HS [HT HK] Ht Hlt Hnt Hns.
   pose proof (cp_need_nonneg (codes p) (pc s1)) as Hnn. pose proof sinit_nonneg as Hs0.
@@ -231,7 +234,7 @@ Ltac t_leaf Hsplit :=
 
 Lemma tot_step s1 s2 w :
   cp_boundary (codes p) (pc s1) w -> tinv s1 -> zlen (stack s1) + 2 <= sinit -> same s1 s2 -> roomy p 16 s2 ->
-  relT (step e p (-1) s1) (step e p (-1) s2).
+  relT (step e p L0 s1) (step e p (-1) s2).
 Proof.
   intros Hb Hinv Hroom. pose proof sinit_nonneg as Hs0.
   pose proof (cp_need_split _ _ _ Hb) as Hsplit.
@@ -275,8 +278,8 @@ Proof. intros H Hab s Hs. apply H. eapply usteps_step; eassumption. Qed.
 
 (* a real step from a state with the invariant, along a ustep *)
 Lemma tot_real_step s : tinv s -> st_good (norm s) ->
-  (forall b, ustep e p (norm s) = Ok (Next b) -> exists a, step e p (-1) s = Ok (Next a) /\ norm a = b /\ tinv a) /\
-  (forall b, ustep e p (norm s) = Ok (Done b) -> exists a, step e p (-1) s = Ok (Done a) /\ norm a = b /\ tinv a).
+  (forall b, ustep e p (norm s) = Ok (Next b) -> exists a, step e p L0 s = Ok (Next a) /\ norm a = b /\ tinv a) /\
+  (forall b, ustep e p (norm s) = Ok (Done b) -> exists a, step e p L0 s = Ok (Done a) /\ norm a = b /\ tinv a).
 Proof.
   intros Hi [[w Hb] Hroom]. cbn [norm VMU.mk pc stack] in Hb, Hroom.
   pose proof (tot_step s (repad p (norm s)) w Hb Hi Hroom (same_repad p s) (roomy_repad p s)) as G.
@@ -292,8 +295,8 @@ Qed.
 Lemma run_steps_total : forall n s sd sd',
   tinv s -> path_ok (norm s) -> ustepsN n (norm s) sd -> ustep e p sd = Ok (Done sd') ->
   forall k,
-    ((n < k)%nat -> exists s', run_steps e p (-1) k s = Ok (s', true) /\ norm s' = sd' /\ tinv s') /\
-    ((k <= n)%nat -> exists s'', run_steps e p (-1) k s = Ok (s'', false) /\ tinv s'' /\
+    ((n < k)%nat -> exists s', run_steps e p L0 k s = Ok (s', true) /\ norm s' = sd' /\ tinv s') /\
+    ((k <= n)%nat -> exists s'', run_steps e p L0 k s = Ok (s'', false) /\ tinv s'' /\
                                   path_ok (norm s'') /\ ustepsN (n - k) (norm s'') sd).
 Proof.
   induction n as [|n IH]; intros s sd sd' Hi Hp Hn Hd k.
@@ -318,8 +321,8 @@ Qed.
 
 Lemma run_total : forall fuel n s sd sd',
   tinv s -> path_ok (norm s) -> ustepsN n (norm s) sd -> ustep e p sd = Ok (Done sd') ->
-  ((n < 1000 * fuel)%nat -> exists s', run e p (-1) fuel s = Ok s' /\ norm s' = sd' /\ tinv s') /\
-  ((1000 * fuel <= n)%nat -> run e p (-1) fuel s = Fuel).
+  ((n < 1000 * fuel)%nat -> exists s', run e p L0 fuel s = Ok s' /\ norm s' = sd' /\ tinv s') /\
+  ((1000 * fuel <= n)%nat -> run e p L0 fuel s = Fuel).
 Proof.
   induction fuel as [|f IH]; intros n s sd sd' Hi Hp Hn Hd.
   - split; [lia|]. intros _. reflexivity.
@@ -336,15 +339,17 @@ Qed.
 
 (* initMatch + goTo(0) on a fresh runner: the invariant holds at the start *)
 Lemma tot_start t w0 : code_at p 0 = Some w0 ->
-  exists s0, goto p (-1) (init_vm p (-1) t) 0 = Ok s0 /\ tinv s0 /\
+  exists s0, goto p L0 (init_vm p L0 t) 0 = Ok s0 /\ tinv s0 /\
              norm s0 = VMU.mk 0 0 t [] [] [] (repeat [] (Z.to_nat (capsize p))).
 Proof.
-  intros H0. set (i0 := init_vm p (-1) t).
-  assert (Htc : tcap i0 = Z.max (trackcount p * 8) 64) by reflexivity.
+  intros H0. set (i0 := init_vm p L0 t).
+  assert (Htc : tcap i0 = Z.max (trackcount p * 8) 64).
+  { unfold i0, init_vm. cbn [tcap]. unfold G_tracksize_mul, G_tracksize_min.
+    replace ((0 <=? L0) && (L0 <? Z.max (trackcount p * 8) 64)) with false by lia. reflexivity. }
   assert (Hsc : scap i0 = Z.max (trackcount p * 8) 32) by reflexivity.
   assert (Htr : track i0 = []) by reflexivity. assert (Hst : stack i0 = []) by reflexivity.
   assert (Hn : need = trackcount p * 4) by reflexivity.
-  assert (E : ensure_storage p (-1) i0 = Ok i0).
+  assert (E : ensure_storage p L0 i0 = Ok i0).
   { unfold ensure_storage. fold need. rewrite Hsc, Hst. change (zlen (@nil Z)) with 0.
     replace (Z.max (trackcount p * 8) 32 - 0 <? need) with false by lia.
     rewrite Htc, Htr. change (zlen (@nil Z)) with 0.
@@ -361,8 +366,8 @@ Theorem exec_total t n sd sd' w0 :
   let a0 := VMU.mk 0 0 t [] [] [] (repeat [] (Z.to_nat (capsize p))) in
   path_ok a0 -> ustepsN n a0 sd -> ustep e p sd = Ok (Done sd') ->
   forall vfuel,
-    ((n < 1000 * vfuel)%nat -> exists s', exec_at e p (-1) vfuel t = Ok s' /\ norm s' = sd' /\ tinv s') /\
-    ((1000 * vfuel <= n)%nat -> exec_at e p (-1) vfuel t = Fuel).
+    ((n < 1000 * vfuel)%nat -> exists s', exec_at e p L0 vfuel t = Ok s' /\ norm s' = sd' /\ tinv s') /\
+    ((1000 * vfuel <= n)%nat -> exec_at e p L0 vfuel t = Fuel).
 Proof.
   intros H0 a0 Hp Hn Hd vfuel. unfold exec_at.
   destruct (tot_start t w0 H0) as (s0 & Eg & Hi & Hs0). rewrite Eg. cbn [bind].
